@@ -45,6 +45,17 @@ theorem or_ignore_only_where_known :
     of `acked_survive` the right model of the identity and wallet code paths, community handlers included -/
 theorem store_callers_do_not_batch : Gen.batchingCallers = [] := by decide
 
+/-- nothing in the identity layer closes a database: the IdentityManager's store is shared by every loaded pseudonym,
+    and on a closed `Database` `db_call` makes every later `execute`/`commit` return None silently — inserts of the
+    other pseudonyms would return and store nothing (the model has no "closed" state: this obligation keeps it out) -/
+theorem shared_store_not_closed_by_a_user : Gen.identityStoreClosers = [] := by decide
+
+/-- one attestation lives in two stores: the wallet commits the proof blob and the secret key before the completion
+    callback lets the identity overlay store (and disclose) the credential; with `acked_survive` for each store this
+    gives: whenever a kill leaves the credential visible, its proof is visible too (the two stores are not composed in
+    the model; the kill runs of `scripted-wallet-identity` check the composition) -/
+theorem wallet_stores_proof_before_advertising : Gen.walletStoresBeforeCallback = true := by decide
+
 example : Gen.insertMethods.length ≥ 4 := by decide
 
 /-! ## crash at any point of any workload of inserts -/
